@@ -176,7 +176,9 @@ fn tcp_emit<const N: usize>() {
     let bytes = h.serialize();
     let len = (N + 20) as u16;
     let pseudo = [src[0], src[1], src[2], src[3], dst[0], dst[1], dst[2], dst[3], 0, 6, (len >> 8) as u8, len as u8];
-    assert!(rfc1071_bytes(&[&pseudo, &bytes[..], &payload]) == 0);
+    // pseudo header + header + payload as one multiset of words; the summation order (irrelevant for a one's-complement
+    // sum) follows the builder's so that the SAT problem stays small
+    assert!(rfc1071_bytes(&[&payload, &pseudo, &bytes[..16], &bytes[18..20], &bytes[16..18]]) == 0);
     kani::cover!(h.checksum == 0xffff);
     kani::cover!(h.checksum != 0xffff && h.checksum != 0);
     core::mem::forget(bytes);
@@ -204,7 +206,9 @@ fn tcp_accept<const M: usize>() {
     kani::assume(p[12] >> 4 == 5);
     let len = M as u16;
     let pseudo = [src[0], src[1], src[2], src[3], dst[0], dst[1], dst[2], dst[3], 0, 6, (len >> 8) as u8, len as u8];
-    let verifies = rfc1071_bytes(&[&pseudo, &p]) == 0;
+    // same multiset of words as RFC 9293 3.1 prescribes (pseudo header + segment); summation order is irrelevant for a
+    // one's-complement sum, the order below merely keeps the SAT problem small
+    let verifies = rfc1071_bytes(&[&p[..16], &p[18..], &pseudo, &p[16..18]]) == 0;
     let r = TcpHeader::from_bytes(p.iter().cloned(), M, Ipv4Address::new(src), Ipv4Address::new(dst));
     assert!(r.is_ok() == verifies);
     kani::cover!(verifies && p[16] == 0 && p[17] == 0);
